@@ -197,3 +197,39 @@ M("C08", "V", "session activity update can raise before dispatch", HANDLER, "   
 M("C08", "V", "except arm logs via message.method", HANDLER, "            logging.error(f\"Handler error for {method}: {e}\")\n", "            logging.error(f\"Handler error for {message.method}: {e}\")\n", "R2")
 M("C08", "B", "error construction extracted into a helper call order", HANDLER, "        is_notification = msg_id is None\n", "        is_notification = msg_id is None\n        logging.debug(\"dispatch\")\n")
 M("C08", "B", "guard spelled with msg_id is None", HANDLER, "        if not handler:\n            if is_notification:\n                return None, None\n", "        if not handler:\n            if msg_id is None:\n                return None, None\n")
+
+# ------------------------------------------------------------------------------ C05
+M("C05", "V", "stateless decode (pre-fix code)", STDIO, "buffer += decoder.decode(chunk)", "buffer += chunk.decode(\"utf-8\")", "R1")
+M("C05", "V", "stateless decode with errors=replace", STDIO, "buffer += decoder.decode(chunk)", "buffer += chunk.decode(\"utf-8\", errors=\"replace\")", "R1")
+M("C05", "V", "decoder created per chunk", STDIO, "                    buffer += decoder.decode(chunk)\n", "                    decoder = codecs.getincrementaldecoder(\"utf-8\")(errors=\"replace\")\n                    buffer += decoder.decode(chunk)\n",
+  more=[(STDIO, "            decoder = codecs.getincrementaldecoder(\"utf-8\")(errors=\"replace\")\n            logger.debug(\"stdout_reader started\")\n", "            logger.debug(\"stdout_reader started\")\n")])
+M("C05", "V", "strict incremental decoder outside the per-line handler", STDIO, "codecs.getincrementaldecoder(\"utf-8\")(errors=\"replace\")", "codecs.getincrementaldecoder(\"utf-8\")()", "R3")
+M("C05", "V", "latin-1 decoder", STDIO, "codecs.getincrementaldecoder(\"utf-8\")(errors=\"replace\")", "codecs.getincrementaldecoder(\"latin-1\")(errors=\"replace\")", "R1")
+M("C05", "V", "splitlines", STDIO, "                lines = buffer.split(\"\\n\")\n", "                lines = buffer.splitlines()\n", "R2")
+M("C05", "V", "carry-over dropped", STDIO, "                buffer = lines[-1]\n", "                buffer = \"\"\n", "R2")
+M("C05", "V", "last fragment processed too", STDIO, "                for line in lines[:-1]:\n", "                for line in lines:\n", "R2")
+M("C05", "V", "per-line handler breaks", STDIO, "                        logger.error(\"JSON decode error: %s  [line: %.120s]\", exc, line)\n", "                        logger.error(\"JSON decode error: %s  [line: %.120s]\", exc, line)\n                        break\n", "R3")
+M("C05", "V", "per-line handler only for JSON errors", STDIO, "                    except Exception as exc:\n                        logger.error(\"Error processing message: %s\", exc)\n                        logger.debug(\"Traceback:\\n%s\", traceback.format_exc())\n", "", "R3")
+M("C05", "V", "notifications only on the notification stream", STDIO, "            # Also send to main stream for general listeners\n            try:\n                await self._incoming_send.send(msg)  # type: ignore[union-attr]\n            except anyio.BrokenResourceError:\n                pass\n\n            return  # Early", "            return  # Early", "R4")
+M("C05", "V", "notifications not offered on the notification stream", STDIO, "                self._notify_send.send_nowait(msg)  # type: ignore[union-attr]\n", "                pass\n", "R4")
+M("C05", "V", "routing spawned as a task", STDIO, "                        await self._process_message_data(data)\n", "                        self.tg.start_soon(self._process_message_data, data)\n", "R4")
+M("C05", "B", "rename buffer", STDIO, "                lines = buffer.split(\"\\n\")\n                buffer = lines[-1]\n\n                for line in lines[:-1]:\n", "                parts = buffer.split(\"\\n\")\n                buffer = parts[-1]\n\n                for line in parts[:-1]:\n")
+M("C05", "B", "decoder via codecs.lookup", STDIO, "codecs.getincrementaldecoder(\"utf-8\")(errors=\"replace\")", "codecs.lookup(\"utf-8\").incrementaldecoder(errors=\"replace\")")
+M("C05", "B", "ignore instead of replace", STDIO, "(errors=\"replace\")", "(errors=\"ignore\")")
+
+# ------------------------------------------------------------------------------ C06
+_STRFIX = "                        if \"\\n\" in json_str or \"\\r\" in json_str:\n                            # One message, one line: re-encode compactly\n                            json_str = json.dumps(json.loads(json_str))\n"
+M("C06", "V", "raw str pass-through (pre-fix code)", STDIO, _STRFIX, "", "R2")
+M("C06", "V", "only LF tested, CR passes", STDIO, "                        if \"\\n\" in json_str or \"\\r\" in json_str:\n", "                        if \"\\n\" in json_str:\n", "R2")
+M("C06", "V", "indent=2 on dict path", STDIO, "                        json_str = json.dumps(message)\n                        msg_method = message.get(\"method\")", "                        json_str = json.dumps(message, indent=2)\n                        msg_method = message.get(\"method\")", "R2")
+M("C06", "V", "no trailing LF", STDIO, "                    await self.process.stdin.send(f\"{json_str}\\n\".encode())\n\n                    # Enhanced logging", "                    await self.process.stdin.send(f\"{json_str}\".encode())\n\n                    # Enhanced logging", "R1")
+M("C06", "V", "CRLF terminator", STDIO, "                    await self.process.stdin.send(f\"{json_str}\\n\".encode())\n\n                    # Enhanced logging", "                    await self.process.stdin.send(f\"{json_str}\\r\\n\".encode())\n\n                    # Enhanced logging", "R1")
+M("C06", "V", "latin-1 encoding", STDIO, "                    await self.process.stdin.send(f\"{json_str}\\n\".encode())\n\n                    # Enhanced logging", "                    await self.process.stdin.send(f\"{json_str}\\n\".encode(\"latin-1\"))\n\n                    # Enhanced logging", "R1")
+M("C06", "V", "handler returns (writer stops)", STDIO, "                    logger.debug(\"Traceback:\\n%s\", traceback.format_exc())\n                    continue\n", "                    logger.debug(\"Traceback:\\n%s\", traceback.format_exc())\n                    return\n", "R4")
+M("C06", "V", "handler only for TypeError", STDIO, "                except Exception as exc:\n                    logger.error(\"Error serializing message in stdin_writer: %s\", exc)", "                except TypeError as exc:\n                    logger.error(\"Error serializing message in stdin_writer: %s\", exc)", "R4")
+M("C06", "V", "no aclose", STDIO, "            if self.process and self.process.stdin:\n                await self.process.stdin.aclose()\n        except Exception as e:\n            logger.error(f\"stdin_writer error: {e}\")", "        except Exception as e:\n            logger.error(f\"stdin_writer error: {e}\")", "R5")
+M("C06", "V", "exclude_none dropped on the model path", STDIO, "                            json_str = model_dump_json_method(exclude_none=True)\n", "                            json_str = model_dump_json_method()\n", "R3")
+M("C06", "V", "message written twice when large", STDIO, "                    await self.process.stdin.send(f\"{json_str}\\n\".encode())\n\n                    # Enhanced logging", "                    await self.process.stdin.send(f\"{json_str}\\n\".encode())\n                    if len(json_str) > 65536:\n                        await self.process.stdin.send(f\"{json_str}\\n\".encode())\n\n                    # Enhanced logging", "R1")
+M("C06", "V", "fast_json appends newline", FASTJSON, "            options = 0\n            if kwargs.get(\"indent\"):\n                options |= _orjson.OPT_INDENT_2\n\n            return _orjson.dumps(obj, option=options).decode(\"utf-8\")", "            options = _orjson.OPT_APPEND_NEWLINE\n            if kwargs.get(\"indent\"):\n                options |= _orjson.OPT_INDENT_2\n\n            return _orjson.dumps(obj, option=options).decode(\"utf-8\")", "R2")
+M("C06", "B", "type dispatch reordered", STDIO, "                    if isinstance(message, str):\n                        # Raw string message (already JSON)\n", "                    if isinstance(message, (str,)):\n                        # Raw string message (already JSON)\n")
+M("C06", "B", "explicit utf-8", STDIO, "                    await self.process.stdin.send(f\"{json_str}\\n\".encode())\n\n                    # Enhanced logging", "                    await self.process.stdin.send(f\"{json_str}\\n\".encode(\"utf-8\"))\n\n                    # Enhanced logging")
